@@ -208,11 +208,11 @@ def set_model(m):
 def find(root, pattern: str, env0=None) -> list[dict]:
     """all matches of pattern among the descendants of root (root included)"""
     out = _find(root, pattern, env0)
-    if out or _MODEL is None or _os.environ.get("PTA_FIND_FALLBACK", "0") != "1" \
+    if out or _MODEL is None or _os.environ.get("PTA_FIND_FALLBACK", "1") != "1" \
             or not isinstance(root, (ast.FunctionDef, ast.AsyncFunctionDef)) \
             or getattr(root, "_derived", False) or not hasattr(root, "_parent"):
         return out
-    for form in (_MODEL.inlined, _MODEL.normal):
+    for form in (_MODEL.inlined, _MODEL.normal, _MODEL.normal_wide):
         try:
             alt = form(root)
         except Exception:       # a form that cannot be built is simply not tried
